@@ -45,6 +45,11 @@ var faultKinds = []faultKind{
 	{"accept", "listener", unix.EINTR, false, true, false},
 	{"accept", "listener", unix.ECONNABORTED, false, true, false},
 	{"accept", "listener", unix.ECONNRESET, false, true, false},
+	{"recvfrom", "udp", unix.ECONNREFUSED, false, true, false},
+	{"recvfrom", "udp", unix.ENOBUFS, false, true, false},
+	{"recvfrom", "udp", unix.EAGAIN, false, true, false},
+	{"sendto", "udp", unix.ECONNREFUSED, false, true, false},
+	{"sendto", "udp", unix.EPERM, false, true, false},
 }
 
 func mkFault(fk faultKind, nth int) vsys.Fault {
@@ -178,6 +183,17 @@ func GenerateC18(seed uint64, tier string) *Plan {
 	if tier == "thorough" {
 		p.EnumK = 12
 	}
+	return p
+}
+
+// GenerateC18UDP: a UDP scenario; a failing recvfrom/sendto loses at most the
+// datagram (or reply) it was made for, every other datagram is handled as usual.
+func GenerateC18UDP(seed uint64, tier string) *Plan {
+	p := GenerateUDP(seed, tier)
+	p.Stop = StopPlan{Source: "engine.Stop"}
+	p.Cfg.Ticker = false
+	p.Enum = true
+	p.EnumK = 6
 	return p
 }
 
